@@ -16,7 +16,8 @@ From Coq Require Import String.
 From Coq Require Import List ZArith Bool Arith Ring.
 Import ListNotations.
 Require Import Base.C05_Np Model.C05_BC Model.C06_Galerkin Proofs.C05_CondenseProofs Proofs.C06_GalerkinProofs
-               Base.C09_Poly Base.C09_PolyQ Proofs.C06_CompleteProofs Gen.C06Gen Gen.C06Complete Dyn.C06Tie.
+               Base.C09_Poly Base.C09_PolyQ Model.C08_Rules Model.C02_PolyInt Proofs.C06_CompleteProofs Proofs.C06_GreenProofs Proofs.C06_PatchProofs
+               Gen.C06Gen Gen.C06Complete Gen.C06Green Dyn.C06Tie.
 
 Definition is_ring {R} (o : ring_ops R) := ring_theory (r0 o) (r1 o) (radd o) (rmul o) (rsub o) (ropp o) (@eq R).
 
@@ -133,9 +134,66 @@ Proof.
 Qed.
 Print Assumptions C06_instance_nodal.
 
+(* ---- Green's identity on the REFERENCE cell, exact polynomial arithmetic (finite, certificate closed by vm_compute):
+   for each class, every basis polynomial phi and every monomial p of total degree <= k (k = the class's degree)
+       pint K (grad p . grad phi) = - pint K (laplace p * phi) + sum_s pint (param domain of facet s) ((grad p . nu_s) phi) o F_s
+   with group A's exact integral pint (C02), the formal derivative pderiv, the facet parametrisations F_s and scaled outward
+   normals nu_s (n dS = nu dt) regenerated from skfem.refdom and checked: affine, nu orthogonal to the facet, of Gram length,
+   pointing away from the centroid. *)
+Theorem C06_green_reference_cells :
+  map (fun e => (ge_name e, ge_deg e, ge_box e)) gen_green =
+    [("ElementLineP1", 1, false); ("ElementLineP2", 2, false); ("ElementTriP1", 1, false); ("ElementTriP2", 2, false);
+     ("ElementTriP3", 3, false); ("ElementTriP4", 4, false); ("ElementTetP1", 1, false); ("ElementTetP2", 2, false);
+     ("ElementQuad1", 1, false); ("ElementQuad2", 2, false); ("ElementHex1", 1, false); ("ElementHex2", 2, false)]%string /\
+  forall e, In e gen_green ->
+    rcell_ok (ge_cell e) = true /\
+    forall phi, In phi (ge_basis e) -> forall m, length m = dim (rc_shape (ge_cell e)) ->
+      (if ge_box e then Forall (fun a => a <= ge_deg e) m else msum m <= ge_deg e) ->
+      QArith_base.Qeq (green_lhs (rc_shape (ge_cell e)) (pmono m) phi)
+                      (green_rhs (rc_shape (ge_cell e)) (rc_facets (ge_cell e)) (pmono m) phi).
+Proof. split; [vm_compute; reflexivity | exact (green_reference_cells gen_green gen_green_ok)]. Qed.
+Print Assumptions C06_green_reference_cells.
+
+(* ---- the patch test from Green's identity, hypotheses explicit (any ring, any mesh connectivity g, any local matrices K_e and
+   loads L_e assembled in the library's COO order).  x* = coefficients of the discrete function u_h.
+     green_cell : K_e x*|_e (i) = vol e i + sum_s flux e s i           Green on cell e for u_h against phi_{e,i}
+     load       : L_e (i) = vol e i + sum_{s on the Neumann boundary} flux e s i
+     cancel     : for a free dof I the remaining facet terms (interior facets: single-valued phi_I [C03_trace_lemma] with opposite
+                  normals and no jump of grad u_h . n for a global polynomial; Dirichlet facets: phi_I vanishes) sum to zero
+   Conclusion: whatever solves the condensed system (A_II injective), expanded, is x*.
+   What is STILL ASSUMED to instantiate green_cell on a physical affine cell from C06_green_reference_cells is only the affine
+   change of variables: with x = A X + b, grad = A^{-T} grad_ref (C10_jacobian, C10_round_trip), n dS = det(A) A^{-T} nu dt
+   (C10_normals, C10_detB_gram, C10_facet_map_on_face), dx = |det A| dX (C02), and additivity of the integral over the cells;
+   u_h = p uses C06_nodal_interpolant_reproduces (x* = nodal values) and exact quadrature C08/C02.  Hence still _partial. *)
+Theorem C06_patch_test_from_green_partial :
+  forall (R : Type) (o : ring_ops R), is_ring o ->
+  forall (N ne nl nfac : nat) (g : nat -> nat -> nat) (K : nat -> nat -> nat -> R) (L : nat -> nat -> R) (xstar : list R)
+         (vol : nat -> nat -> R) (flux : nat -> nat -> nat -> R) (neumann : nat -> nat -> bool) (free : nat -> Prop),
+    (forall e i, e < ne -> i < nl ->
+       lsum o (fun j => rmul o (K e i j) (vnth o xstar (g e j))) (seq 0 nl) = radd o (vol e i) (facets_sum o nfac flux e i (fun _ => true))) ->
+    (forall e i, e < ne -> i < nl -> L e i = radd o (vol e i) (facets_sum o nfac flux e i (neumann e))) ->
+    (forall I, free I ->
+       lsum o (fun i => lsum o (fun e => if Nat.eqb (g e i) I then facets_sum o nfac flux e i (fun s => negb (neumann e s)) else r0 o)
+                              (seq 0 ne)) (seq 0 nl) = r0 o) ->
+    forall (x z : list R) (I D : list nat),
+      length x = N -> length xstar = N -> split_ok N I D ->
+      rows_in_range N (assembled_matrix N ne nl g K) ->
+      (forall i, In i I -> free i) ->
+      (forall d, In d D -> vnth o x d = vnth o xstar d) ->
+      injective_on o (length I) (condense_A (assembled_matrix N ne nl g K) I) ->
+      length z = length I ->
+      matvec o (condense_A (assembled_matrix N ne nl g K) I) z
+        = condense_b o (assembled_matrix N ne nl g K) (assembled_vector o N ne nl g L) x I D ->
+      forall c, c < N -> vnth o (expand x I z) c = vnth o xstar c.
+Proof.
+  intros R o Rth N ne nl nfac g K L xstar vol flux neumann free H1 H2 H3.
+  exact (patch_test_from_green o Rth N ne nl nfac g K L xstar vol flux neumann H1 H2 free H3).
+Qed.
+Print Assumptions C06_patch_test_from_green_partial.
+
 (* ---- non-vacuity: two "cells" sharing dof 1, two quadrature points, a composite (vector x scalar) element: shape [2; 1] *)
 Definition exB : fe Z :=
-  {| nel := 2; nloc := 2; nq := 2; shape := [2; 1];
+  {| nel := 2; nloc := 2; nq := 2; C06_Galerkin.shape := [2; 1];
      gdof := fun e i => e + i;
      phi := fun e q i c => (Z.of_nat (1 + e + 2 * q + 3 * i) - 2 * Z.of_nat c)%Z;
      dxw := fun e q => (Z.of_nat (1 + q + e))%Z |}.
